@@ -1,5 +1,6 @@
 // driver: harris_michael_list_based_set / harris_michael_hash_map (C08, C09)
 //   config: set/<recl>   |   map<buckets><m|n><h|c>/<recl>   (m = memoize_hash, h = identity hash, c = colliding hash)
+//           sset / smap<buckets><m|n><h|c>: the same with std::string keys (heap-allocated, moved-from = empty)
 //   ops: emp<k>  eog<k>  goe<k>  gol<k>  idx<k>  era<k>  fnd<k>  con<k>  fer<k> (erase(find(k)))  trav  trave<p> (erase at position p)
 //   values: a map stores 10*k with key k
 #include "common.hpp"
@@ -7,36 +8,48 @@
 #include <xenium/harris_michael_hash_map.hpp>
 #include <xenium/harris_michael_list_based_set.hpp>
 #include <memory>
+#include <string>
 
 struct IdHash { std::size_t operator()(int k) const noexcept { return (std::size_t)k; } };
 struct ColHash { std::size_t operator()(int) const noexcept { return 7; } };
+// key conversions: int keys, and std::string keys long enough to live on the heap (a moved-from key is empty: C08 "the value seen for
+// a key is the one inserted with it" must not depend on the key argument surviving a failed insertion attempt)
+struct IntKey { using type = int; static int mk(int k) { return k; } static long id(const int& k) { return k; } };
+struct StrKey { using type = std::string;
+  static std::string mk(int k) { return std::string(24, 'k') + std::to_string(k); }
+  static long id(const std::string& s) { return s.size() > 24 ? atol(s.c_str() + 24) : -1; } };
+struct StrIdHash { std::size_t operator()(const std::string& s) const noexcept { return (std::size_t)StrKey::id(s); } };
+struct StrColHash { std::size_t operator()(const std::string&) const noexcept { return 7; } };
 
-template <class S> struct SetOps {
-  static long key(typename S::iterator& it) { return *it; }
+template <class S, class KC = IntKey> struct SetOps {
+  using K = KC;
+  static long key(typename S::iterator& it) { return KC::id(*it); }
   static long val(typename S::iterator&) { return 0; }
-  static bool emplace(S& s, int k) { return s.emplace(k); }
-  static std::pair<bool, long> eog(S& s, int k) { auto r = s.emplace_or_get(k); return {r.second, (long)*r.first}; }
+  static bool emplace(S& s, int k) { return s.emplace(KC::mk(k)); }
+  static std::pair<bool, long> eog(S& s, int k) { auto r = s.emplace_or_get(KC::mk(k)); return {r.second, KC::id(*r.first)}; }
 };
-template <class M> struct MapOps {
-  static long key(typename M::iterator& it) { return it->first; }
+template <class M, class KC = IntKey> struct MapOps {
+  using K = KC;
+  static long key(typename M::iterator& it) { return KC::id(it->first); }
   static long val(typename M::iterator& it) { return it->second; }
-  static bool emplace(M& m, int k) { return m.emplace(k, k * 10); }
-  static std::pair<bool, long> eog(M& m, int k) { auto r = m.emplace_or_get(k, k * 10); return {r.second, (long)r.first->second}; }
+  static bool emplace(M& m, int k) { return m.emplace(KC::mk(k), k * 10); }
+  static std::pair<bool, long> eog(M& m, int k) { auto r = m.emplace_or_get(KC::mk(k), k * 10); return {r.second, (long)r.first->second}; }
 };
 
 template <class C, class Ops, bool IsMap>
 xv::Scenario make_scn(const drv::Program& p) {
   auto c = std::make_shared<C*>(nullptr);
   auto exec = [c](const drv::Op& o) {
-    C& s = **c; int k = (int)o.a; const std::string& n = o.name;
-    if (n == "emp") { xv::call("emplace", k, IsMap ? k * 10 : k); bool ok = Ops::emplace(s, k); xv::ret(ok, 0); }
-    else if (n == "eog") { xv::call("getorput", k, IsMap ? k * 10 : k); auto r = Ops::eog(s, k); xv::ret(r.first, r.second); }
-    else if (n == "era") { xv::call("erase", k); bool ok = s.erase(k); xv::ret(ok, 0); }
-    else if (n == "con") { xv::call("contains", k); bool ok = s.contains(k); xv::ret(ok, 0); }
-    else if (n == "fnd") { xv::call("find", k); auto it = s.find(k); bool ok = it != s.end(); long v = ok ? (IsMap ? Ops::val(it) : Ops::key(it)) : 0; xv::ret(ok, v); }
+    using KC = typename Ops::K;
+    C& s = **c; const int ki = (int)o.a; const auto k = KC::mk(ki); const std::string& n = o.name;
+    if (n == "emp") { xv::call("emplace", ki, IsMap ? ki * 10 : ki); bool ok = Ops::emplace(s, ki); xv::ret(ok, 0); }
+    else if (n == "eog") { xv::call("getorput", ki, IsMap ? ki * 10 : ki); auto r = Ops::eog(s, ki); xv::ret(r.first, r.second); }
+    else if (n == "era") { xv::call("erase", ki); bool ok = s.erase(k); xv::ret(ok, 0); }
+    else if (n == "con") { xv::call("contains", ki); bool ok = s.contains(k); xv::ret(ok, 0); }
+    else if (n == "fnd") { xv::call("find", ki); auto it = s.find(k); bool ok = it != s.end(); long v = ok ? (IsMap ? Ops::val(it) : Ops::key(it)) : 0; xv::ret(ok, v); }
     else if (n == "fer") {
-      xv::call("find", k); auto it = s.find(k); bool ok = it != s.end(); long v = ok ? (IsMap ? Ops::val(it) : Ops::key(it)) : 0; xv::ret(ok, v);
-      if (ok) { xv::call("it_erase", k); it = s.erase(std::move(it)); xv::ret(0, 0); }
+      xv::call("find", ki); auto it = s.find(k); bool ok = it != s.end(); long v = ok ? (IsMap ? Ops::val(it) : Ops::key(it)) : 0; xv::ret(ok, v);
+      if (ok) { xv::call("it_erase", ki); it = s.erase(std::move(it)); xv::ret(0, 0); }
     }
     else if (n == "trav" || n == "trave") {
       long epos = n == "trave" ? o.a : -1; long pos = 0;
@@ -51,9 +64,10 @@ xv::Scenario make_scn(const drv::Program& p) {
       xv::call("it_end", pos < 12 ? 1 : 0); xv::ret(0, 0);
     }
     else if constexpr (IsMap) {
-      if (n == "goe") { xv::call("getorput", k, k * 10); auto r = s.get_or_emplace(k, k * 10); xv::ret(r.second, (long)r.first->second); }
-      else if (n == "gol") { xv::call("getorput", k, k * 10); auto r = s.get_or_emplace_lazy(k, [k] { return k * 10; }); xv::ret(r.second, (long)r.first->second); }
-      else if (n == "idx") { xv::call("idx", k); auto acc = s[k]; long v = *acc; xv::ret(0, v); }
+      // the key is handed over as an rvalue (it is moved into the node on insertion); the map value must still be the one of THIS key
+      if (n == "goe") { xv::call("getorput", ki, ki * 10); auto r = s.get_or_emplace(KC::mk(ki), ki * 10); xv::ret(r.second, Ops::key(r.first) == ki ? (long)r.first->second : -1); }
+      else if (n == "gol") { xv::call("getorput", ki, ki * 10); auto r = s.get_or_emplace_lazy(KC::mk(ki), [ki] { return ki * 10; }); xv::ret(r.second, Ops::key(r.first) == ki ? (long)r.first->second : -1); }
+      else if (n == "idx") { xv::call("idx", ki); auto acc = s[KC::mk(ki)]; long v = *acc; xv::ret(0, v); }
     }
   };
   xv::Scenario sc; sc.nthreads = (int)p.threads.size(); sc.after = p.after;
@@ -76,6 +90,11 @@ template <class R> xv::Scenario by_kind(const drv::Program& p, const std::string
                       return make_scn<M, MapOps<M>, true>(p); }
   MAPCFG("map1mh", 1, true, IdHash) MAPCFG("map2nh", 2, false, IdHash) MAPCFG("map2mc", 2, true, ColHash) MAPCFG("map1nc", 1, false, ColHash)
   MAPCFG("map2mh", 2, true, IdHash)
+#define SMAPCFG(name, B, MEMO, H) \
+  if (kind == name) { using M = harris_michael_hash_map<std::string, int, policy::reclaimer<R>, policy::buckets<B>, policy::memoize_hash<MEMO>, policy::hash<H>>; \
+                      return make_scn<M, MapOps<M, StrKey>, true>(p); }
+  SMAPCFG("smap1nc", 1, false, StrColHash) SMAPCFG("smap2mh", 2, true, StrIdHash) SMAPCFG("smap1mc", 1, true, StrColHash)
+  if (kind == "sset") { using S = harris_michael_list_based_set<std::string, policy::reclaimer<R>>; return make_scn<S, SetOps<S, StrKey>, false>(p); }
   fprintf(stderr, "hm: unknown kind %s\n", kind.c_str()); exit(2);
 }
 
